@@ -22,9 +22,12 @@ def race_reports(output):
         sides = []
         for part in parts[:2]:
             fn = None
-            for line in part.splitlines():
+            lines = part.splitlines()
+            for i, line in enumerate(lines):
                 m = RACE_FRAME.match(line)
-                if m and "zzverif" not in line and "verifkit" not in line:
+                where = lines[i + 1] if i + 1 < len(lines) else ""   # the frame's file:line follows its function
+                # frames of the harness itself (injected zzverif_* files, verifkit, any *_test.go) are not refinery code
+                if m and not any(x in line or x in where for x in ("zzverif", "verifkit", "_test.go")) and ".TestVerif" not in line:
                     fn = m.group(1).replace("github.com/honeycombio/refinery/", "")
                     break
             sides.append(fn or "?")
@@ -41,6 +44,9 @@ def handle_races(ctx, st, name, output):
         if r["signature"] in seen:
             continue
         seen.add(r["signature"])
+        if r["signature"] == "? <-> ?":
+            # both conflicting accesses are in the harness (or the runtime): a defect of the driver, not an observation of refinery
+            raise CannotDecide(f"data race inside the harness of stage {name} (no refinery frame on either side):\n{r['excerpt'][:1500]}")
         f = vlib.open_finding(ctx.prop, "race: " + r["signature"])
         if f:
             ctx.known.append(f"{f['id']} {r['signature']}: {f['what'][:200]}")
